@@ -636,7 +636,11 @@ def gen_random(seed, world, tier):
             st["readonly"] = True
         if pos in fault_slots and pos < length - 1:
             fk = R.random()
-            if fk < 0.55:
+            if fk < 0.08:
+                # an internal LAPACK-backed factorisation fails (LinAlgError) instead of a line fault
+                st["fault"] = {"linalg_fail": {"fn": R.choice(["svd", "qr", "qr", "eigh", "eig", "inv", "solve"]),
+                                               "k": R.choice([1, 1, 2, 3])}}
+            elif fk < 0.55:
                 st["fault"] = {"line": R.choice([R.randint(1, 40), R.randint(1, 400), R.randint(1, 4000)])}
             elif fk < 0.75:
                 st["fault"] = {"spd_fallback": True}
@@ -855,9 +859,9 @@ class Hooks(BaseHooks):
             self.cnt["obj_mutations"] += 1
         if "obj" in src and src["obj"] in self.faulted_objs and not fault:
             self.cnt["after_fault_calls"] += 1
-        hard = bool(fault.get("line") and rec.get("fault_fired")) or any(
+        hard = bool((fault.get("line") or fault.get("linalg_fail")) and rec.get("fault_fired")) or any(
             f in fault for f in ("spd_fallback", "lu_fail", "jitter"))
-        if fault.get("line") and rec.get("fault_fired"):
+        if (fault.get("line") or fault.get("linalg_fail")) and rec.get("fault_fired"):
             self.cnt["fault_raised" if rec["ok"] == "exc" else "fault_swallowed"] += 1
         if hard and "obj" in src:
             self.faulted_objs.add(src["obj"])
